@@ -27,7 +27,7 @@ from __future__ import annotations
 import itertools
 
 from ..lib import (evaluator, Decider, enum_member, rec_fields, show, walk, strip_casts, is_ext_call,
-                   fn_name, method_name, path_str, dep_names, ext_name, leaves)
+                   fn_name, method_name, path_str, dep_names, ext_name, leaves, cmp_oriented)
 from ..spec import spec_term, Comparer
 from ..terms import T, sym, const, is_const, cval, NONE
 from ..model import AnalysisError
@@ -578,24 +578,40 @@ def blockify_inverse(ctx):
 # ------------------------------------------------------------------ S8
 def large_axis_predicate(ctx):
   """Every comparison of a dimension with the block size says `dim >= block_size` (or its negation)."""
-  import ast
   m = ctx.model
   sites = [('tearfree.shampoo', '_blocks_metadata'), ('tearfree.shampoo', '_init.make_blocks'),
            ('tearfree.reshaper', '_derive_shapes')]
-  n = 0
+  MIRROR = {'>=': '<=', '<=': '>=', '<': '>', '>': '<', '==': '==', '!=': '!='}
+
+  def is_block_size(t):
+    ps = path_str(strip_casts(t))
+    return ps is not None and ps.split('.')[-1] == 'block_size'
+
   for mod, q in sites:
     fi = m.func(mod, q)
     ctx.analysed(fi)
-    for node in ast.walk(fi.node):
-      if isinstance(node, ast.Compare) and len(node.ops) == 1:
-        l, r = ast.unparse(node.left), ast.unparse(node.comparators[0])
-        if 'block_size' in r and 'block_size' not in l and ('dim' in l or l in ('d', 's')) and '%' not in l:
-          op = type(node.ops[0]).__name__
-          n += 1
-          ctx.ob('C06.S8', fi.short, f'large-axis test `{l} ? {r}`', op in ('GtE', 'Lt'),
-                 f'an axis is "large" iff dim >= block_size everywhere (metadata, init rejections, padding); here the test is `{ast.unparse(node)}`',
-                 ctx.loc(fi, node), sample=f'{ast.unparse(node)}')
-  ctx.need('C06.S8', n, 4, 'dimension/block-size comparisons')
+    ev = evaluator(m, opaque={'merge_small_dims'} | ({'_blocks_metadata'} if q.endswith('make_blocks') else set()))
+    r = ev.run(fi)
+    terms = [r] + [p for e, path, fq, node in ev.raises for p in path] + [e for e, path, fq, node in ev.raises] + \
+        [c for c, path, fq, node in getattr(ev, 'asserts', [])]
+    seen, n = set(), 0
+    for t in terms:
+      for x in walk(t):
+        if x.op != 'cmp' or x in seen or len(x.args) != 3:
+          continue
+        seen.add(x)
+        op, l, rr = x.args
+        if is_block_size(l) and not is_block_size(rr):
+          op, l, rr = MIRROR.get(op, op), rr, l
+        elif not (is_block_size(rr) and not is_block_size(l)):
+          continue
+        if is_const(l) or (l.op == 'bin' and l.args[0] == '%') or any(is_block_size(y) for y in walk(l)):
+          continue          # block_size == 0, dim % block_size ...: not a large-axis test
+        n += 1
+        ctx.ob('C06.S8', fi.short, f'large-axis test `{show(l, maxdepth=2)[:40]} {op} block_size`', op in ('>=', '<'),
+               f'an axis is "large" iff dim >= block_size everywhere (metadata, init rejections, padding); here the test is `{show(x, maxdepth=4)[:120]}`',
+               ctx.loc(fi), sample=f'{show(x, maxdepth=3)[:100]}')
+    ctx.need('C06.S8', n, 1, f'dimension/block-size comparisons in {q}')
   # init rejections
   fi = m.func('tearfree.shampoo', '_init.make_blocks')
   ev = evaluator(m, opaque={'_blocks_metadata'})
@@ -652,8 +668,9 @@ def reshaper(ctx):
       if pd.op == 'list' and len(pd.args) == 1 and pd.args[0].op == 'star':
         e = pd.args[0].args[0]
         # ite(s >= B, ceil(s/B)*B, s)
-        if e.op == 'ite' and e.args[0].op == 'cmp':
-          s_ = e.args[0].args[1]
+        oc = cmp_oriented(e.args[0], lambda t: (path_str(strip_casts(t)) or '').split('.')[-1] == 'block_size') if e.op == 'ite' else None
+        if oc is not None:
+          s_ = oc[1]
           env = {'s': s_, 'B': ev.attr(sym('param', fd.short, 'options'), 'block_size')}
           ok = cmpr.same(e.args[0], spec_term(ev, 's >= B', env)) and cmpr.same(e.args[1], spec_term(ev, '((s + B - 1) // B) * B', env)) and e.args[2] is s_
       ctx.ob('C06.S2', fd.short, 'pad large dims to the next block multiple', ok,
